@@ -7,12 +7,15 @@ from common import lean_driver, rng, unhexs
 from oracle import DatasetView, parse_frac
 
 NEEDS_DATASET = True
-TARGETS = ["RdVerif.Props.C16"]
-THEOREMS = ["RdVerif.C16.diagram_is_decay_subgraph", "RdVerif.C16.queue_drained_witness"]
+TARGETS = ["RdVerif.Props.C16", "RdVerif.Props.C16Inv"]
+THEOREMS = ["RdVerif.C16.diagram_is_decay_subgraph", "RdVerif.C16.queue_drained_witness",
+            "RdVerif.C16.C16_positions_injective", "RdVerif.C16.C16_edges_from_links", "RdVerif.C16.C16_node_names_nodup"]
 PARTIAL = {
-    "positions_injective_partial / nodes_eq_reachable_partial / row_eq_bfs_distance_partial":
-        "proved by kernel evaluation for every root of the shipped dataset (builder = independent specification); the "
-        "for-all-datasets invariants of the queue-based builder are not proved",
+    "nodes_eq_reachable_partial / row_eq_bfs_distance_partial":
+        "proved by kernel evaluation for every root of the shipped dataset (builder = independent specification). For ALL "
+        "datasets: positions pairwise distinct, edges = listed links with their mode/bf (C16_positions_injective, "
+        "C16_edges_from_links), names pairwise distinct under DiagramWF (C16_node_names_nodup; counterexamples without it); "
+        "node set = reachable set and row = BFS distance for all datasets are not proved",
 }
 ASSUMPTIONS = ["networkx stores nodes/edges/attributes as given; Matplotlib rendering not modelled"]
 
@@ -93,6 +96,20 @@ def correspondence(rep, ctx):
         rep.dist("axes-texts")
         if not want <= texts:
             fail(i, f"labels missing on the returned axes: {sorted(want - texts)[:3]}")
+    # ---- non-default datasets: the diagram of a root inside a descendant-closed sub-dataset is the same graph
+    from oracle import subset_dataset
+    for k in range(25 if thorough else 6):
+        root = r.choice(roots)
+        ds, names = subset_dataset(rd, view, [root], name=f"verif_subset_{k}")
+        rep.case(("subset", view.names[root]))
+        rep.dist("sub-dataset")
+        try:
+            g1, _, _ = build(rd.Nuclide(view.names[root], ds), nx.DiGraph())
+            g0, _, _ = build(rd.Nuclide(view.names[root]), nx.DiGraph())
+            if dict(g1.nodes(data=True)) != dict(g0.nodes(data=True)) or sorted(g1.edges(data="label")) != sorted(g0.edges(data="label")):
+                fail(root, "the diagram on a sub-dataset holding the whole chain differs from the one on the full dataset")
+        except Exception as e:  # noqa: BLE001
+            fail(root, f"diagram on a sub-dataset raised {type(e).__name__}: {e}")
     rep.corr["exhaustive"] = True
     rep.notes["mismatches"] = bad
 
